@@ -234,6 +234,19 @@ static int rw_do_op(int idx, op_t* op) {
     fiber_rwlock_wrunlock(&rwl[l]);
     return 1;
   }
+  if (!strcmp(op->name, "wrloop")) {
+    // b write sections in a row, each with a yield inside (so the other writers queue up behind it)
+    for (int i = 0; i < op->b; i++) {
+      int before = g_fiber_switches(idx);
+      fiber_rwlock_wrlock(&rwl[l]);
+      if (g_fiber_switches(idx) != before) g_inc(&rw_blocked);
+      grw_acq(l, idx, 1, 0);
+      rw_section(idx, l, 1, 1, 0);
+      grw_rel(l, idx, 1);
+      fiber_rwlock_wrunlock(&rwl[l]);
+    }
+    return 1;
+  }
   if (!strcmp(op->name, "rdhold")) {
     // any number of simultaneous read holds: up to b read locks taken by this fiber (tryrdlock: a reader that finds a writer
     // waiting would queue behind it), a trywrlock against them, a yield so that the others meet the held lock, then all released
@@ -451,8 +464,12 @@ static int sp_do_op(int idx, op_t* op) {
     if (vs_points() - p0 > 12) g_inc(&sp_contended);
   } else if (!strcmp(op->name, "strylock")) {
     g_nb_enter(idx);
+    uint64_t spins0 = vs_spin_calls();
     int r = fiber_spinlock_trylock(&spl[l]);
+    uint64_t spun = vs_spin_calls() - spins0;
     g_nb_exit(idx);
+    // "trylock never waits": not by suspending the fiber (bracket above) and not by spinning
+    if (spun) vs_violation("try_blocked", "fiber %d: fiber_spinlock_trylock on lock %d executed %llu spin-wait iterations before it returned %d", idx, l, (unsigned long long)spun, r);
     if (r != FIBER_SUCCESS) {
       g_inc(&sp_try_fail);
       return 1;
